@@ -76,8 +76,8 @@ NA.pop("C09", None)
 
 CHECKS["C14"] = (
     "other",
-    "static analysis: read/write effect footprints of the Path producers and path-sensitive simulation of Path._cache surgery (stash/restore, exclude, locks, id_set) on CFGs; frozen affine-invariance and transport tables",
-    "Decides the clause 'these quantities transform correctly whatever was computed beforehand' for every history: each cached Path producer reads only state Path.__hash__ covers; in every path function that keeps memo entries across a change of vertices or entities each surviving entry is transported (reviewed table), affine-invariant (reviewed table) and never metric; the cache is verified before such surgery and before raw reads (copy/split/simplify); nothing is read under a cache lock after vertices or entities changed; entity bytes cover points and closed flags. Invariance under entity permutation, splitting and direction, exact area/length and DXF/SVG round trips are not decided.",
+    "static analysis: read/write effect footprints of the Path producers and path-sensitive simulation of Path._cache surgery (stash/restore, exclude, locks, id_set) on CFGs; frozen affine-invariance and transport tables; algebraic abstract interpretation of arc_center (rational / trigonometric polynomial identities)",
+    "Decides the clause 'these quantities transform correctly whatever was computed beforehand' for every history: each cached Path producer reads only state Path.__hash__ covers; in every path function that keeps memo entries across a change of vertices or entities each surviving entry is transported (reviewed table), affine-invariant (reviewed table) and never metric; the cache is verified before such surgery and before raw reads (copy/split/simplify); nothing is read under a cache lock after vertices or entities changed; entity bytes cover points and closed flags; the centre of a three-point arc is its circumcentre (2D and 3D) and the long-arc decision is a positive multiple of cos(span/2) wherever the middle control point sits on the arc, so span does not depend on how an arc was sampled. Invariance under entity permutation, splitting and direction, exact area/length and DXF/SVG round trips are not decided.",
     "Trusted: E1 effect model and typing conventions; the frozen tables AFFINE_INVARIANT / TRANSPORT / accepted unhashed reads (reasons in evidence).",
     "DESIGN.md#c14",
 )
